@@ -23,7 +23,12 @@ import (
 	v3clusterpb "github.com/envoyproxy/go-control-plane/envoy/config/cluster/v3"
 	v3corepb "github.com/envoyproxy/go-control-plane/envoy/config/core/v3"
 	v3endpointpb "github.com/envoyproxy/go-control-plane/envoy/config/endpoint/v3"
+	v3listenerpb "github.com/envoyproxy/go-control-plane/envoy/config/listener/v3"
 	v3routepb "github.com/envoyproxy/go-control-plane/envoy/config/route/v3"
+	v3faultpb "github.com/envoyproxy/go-control-plane/envoy/extensions/filters/http/fault/v3"
+	v3rbacfilterpb "github.com/envoyproxy/go-control-plane/envoy/extensions/filters/http/rbac/v3"
+	v3routerpb "github.com/envoyproxy/go-control-plane/envoy/extensions/filters/http/router/v3"
+	v3httppb "github.com/envoyproxy/go-control-plane/envoy/extensions/filters/network/http_connection_manager/v3"
 	v3matcherpb "github.com/envoyproxy/go-control-plane/envoy/type/matcher/v3"
 	v3typepb "github.com/envoyproxy/go-control-plane/envoy/type/v3"
 	"google.golang.org/grpc/internal/testutils/xds/e2e"
@@ -35,7 +40,9 @@ import (
 	"google.golang.org/protobuf/types/known/durationpb"
 	"google.golang.org/protobuf/types/known/wrapperspb"
 
-	_ "google.golang.org/grpc/internal/xds/httpfilter/router" // router HTTP filter
+	_ "google.golang.org/grpc/internal/xds/httpfilter/fault"  // fault HTTP filter (client side only)
+	_ "google.golang.org/grpc/internal/xds/httpfilter/rbac"   // RBAC HTTP filter (server side only)
+	_ "google.golang.org/grpc/internal/xds/httpfilter/router" // router HTTP filter (terminal)
 )
 
 type c45Ep struct {
@@ -111,6 +118,128 @@ func c45BuildCLA(x c45Cla) *v3endpointpb.ClusterLoadAssignment {
 	return cla
 }
 
+
+type c45Filter struct {
+	Kind string `json:"kind"`
+	Opt  bool   `json:"opt"`
+	Nm   int    `json:"nm"`
+}
+
+type c45Lis struct {
+	Name    bool        `json:"name"`
+	Side    string      `json:"side"`
+	Filters []c45Filter `json:"filters"`
+	Route   string      `json:"route"`
+	Chain   string      `json:"chain"`
+}
+
+func c45Any(m proto.Message) *anypb.Any {
+	a, err := anypb.New(m)
+	if err != nil {
+		panic(err)
+	}
+	return a
+}
+
+func c45BuildListener(y c45Lis) *v3listenerpb.Listener {
+	hcm := &v3httppb.HttpConnectionManager{}
+	for _, f := range y.Filters {
+		hf := &v3httppb.HttpFilter{IsOptional: f.Opt}
+		if f.Nm != 0 {
+			hf.Name = fmt.Sprintf("f%d", f.Nm)
+		}
+		var cfg proto.Message
+		switch f.Kind {
+		case "router":
+			cfg = &v3routerpb.Router{}
+		case "fault":
+			cfg = &v3faultpb.HTTPFault{}
+		case "rbac":
+			cfg = &v3rbacfilterpb.RBAC{}
+		default: // a type for which no HTTP filter is registered
+			cfg = wrapperspb.String("not-a-filter")
+		}
+		hf.ConfigType = &v3httppb.HttpFilter_TypedConfig{TypedConfig: c45Any(cfg)}
+		hcm.HttpFilters = append(hcm.HttpFilters, hf)
+	}
+	ads := &v3corepb.ConfigSource{ConfigSourceSpecifier: &v3corepb.ConfigSource_Ads{Ads: &v3corepb.AggregatedConfigSource{}}}
+	switch y.Route {
+	case "rds":
+		hcm.RouteSpecifier = &v3httppb.HttpConnectionManager_Rds{Rds: &v3httppb.Rds{ConfigSource: ads, RouteConfigName: "route"}}
+	case "noname":
+		hcm.RouteSpecifier = &v3httppb.HttpConnectionManager_Rds{Rds: &v3httppb.Rds{ConfigSource: ads}}
+	case "inline":
+		rt := &v3routepb.Route{Match: &v3routepb.RouteMatch{PathSpecifier: &v3routepb.RouteMatch_Prefix{Prefix: "/"}}}
+		if y.Side == "api" {
+			rt.Action = &v3routepb.Route_Route{Route: &v3routepb.RouteAction{ClusterSpecifier: &v3routepb.RouteAction_Cluster{Cluster: "c"}}}
+		} else {
+			rt.Action = &v3routepb.Route_NonForwardingAction{NonForwardingAction: &v3routepb.NonForwardingAction{}}
+		}
+		hcm.RouteSpecifier = &v3httppb.HttpConnectionManager_RouteConfig{RouteConfig: &v3routepb.RouteConfiguration{
+			Name: "inline", VirtualHosts: []*v3routepb.VirtualHost{{Domains: []string{"*"}, Routes: []*v3routepb.Route{rt}}}}}
+	}
+	lis := &v3listenerpb.Listener{}
+	if y.Name {
+		lis.Name = "listener"
+	}
+	if y.Side == "api" {
+		lis.ApiListener = &v3listenerpb.ApiListener{ApiListener: c45Any(hcm)}
+		return lis
+	}
+	lis.Address = &v3corepb.Address{Address: &v3corepb.Address_SocketAddress{SocketAddress: &v3corepb.SocketAddress{
+		Address: "0.0.0.0", PortSpecifier: &v3corepb.SocketAddress_PortValue{PortValue: 9999}}}}
+	fc := func(name string) *v3listenerpb.FilterChain {
+		return &v3listenerpb.FilterChain{Name: name, Filters: []*v3listenerpb.Filter{{Name: "hcm",
+			ConfigType: &v3listenerpb.Filter_TypedConfig{TypedConfig: c45Any(hcm)}}}}
+	}
+	if y.Chain == "fc" || y.Chain == "both" {
+		lis.FilterChains = []*v3listenerpb.FilterChain{fc("fc")}
+	}
+	if y.Chain == "default" || y.Chain == "both" {
+		lis.DefaultFilterChain = fc("default")
+	}
+	return lis
+}
+
+func c45SumHCM(h *HTTPConnectionManagerConfig) map[string]any {
+	fs := []any{}
+	if h != nil {
+		for _, f := range h.HTTPFilters {
+			fs = append(fs, map[string]any{"name": c45Hex(f.Name), "term": f.Filter != nil && f.Filter.IsTerminal()})
+		}
+	}
+	return map[string]any{"filters": fs, "rcn": h != nil && h.RouteConfigName != "", "inline": h != nil && h.InlineRouteConfig != nil}
+}
+
+func c45SumLDS(u ListenerUpdate) map[string]any {
+	hcms := []any{}
+	if u.APIListener != nil {
+		hcms = append(hcms, c45SumHCM(u.APIListener))
+	}
+	if t := u.TCPListener; t != nil {
+		if !t.DefaultFilterChain.IsEmpty() {
+			hcms = append(hcms, c45SumHCM(t.DefaultFilterChain.HTTPConnMgr))
+		}
+		for _, d := range t.FilterChains.DstPrefixes {
+			for _, st := range d.SourceTypeArr {
+				for _, e := range st.Entries {
+					var ports []int
+					for p := range e.PortMap {
+						ports = append(ports, p)
+					}
+					sort.Ints(ports)
+					for _, p := range ports {
+						if fc := e.PortMap[p]; !fc.IsEmpty() {
+							hcms = append(hcms, c45SumHCM(fc.HTTPConnMgr))
+						}
+					}
+				}
+			}
+		}
+	}
+	return map[string]any{"api": u.APIListener != nil, "tcp": u.TCPListener != nil, "hcms": hcms}
+}
+
 func c45U32(v uint32) [2]int { return [2]int{int(v >> 16), int(v & 0xffff)} }
 func c45Hex(s string) string { return "x" + hex.EncodeToString([]byte(s)) }
 
@@ -177,9 +306,15 @@ func c45SumRDS(u RouteConfigUpdate) map[string]any {
 
 // c45Dump renders a value canonically (pointers followed, maps sorted, protos as wire bytes), to
 // compare the results of two calls.
+var (
+	c45DumpBudget int
+	c45ProtoType  = reflect.TypeOf((*proto.Message)(nil)).Elem()
+)
+
 func c45Dump(sb *strings.Builder, v reflect.Value, depth int) {
-	if depth > 60 {
-		sb.WriteString("<deep>")
+	c45DumpBudget--
+	if depth > 60 || c45DumpBudget < 0 {
+		sb.WriteString("<cut>")
 		return
 	}
 	if !v.IsValid() {
@@ -211,11 +346,22 @@ func c45Dump(sb *strings.Builder, v reflect.Value, depth int) {
 			sb.WriteString("nil")
 			return
 		}
+		if v.Kind() == reflect.Pointer && v.Type().Implements(c45ProtoType) {
+			// a proto message reached through an unexported field: render its wire form, never its internals
+			m := reflect.NewAt(v.Type().Elem(), v.UnsafePointer()).Interface().(proto.Message)
+			b, _ := proto.MarshalOptions{Deterministic: true}.Marshal(m)
+			sb.WriteString("proto:" + hex.EncodeToString(b))
+			return
+		}
 		sb.WriteString("&")
 		c45Dump(sb, v.Elem(), depth+1)
 	case reflect.Struct:
 		if v.Type() == reflect.TypeOf(regexp.Regexp{}) {
 			sb.WriteString("re-struct")
+			return
+		}
+		if pp := v.Type().PkgPath(); strings.HasPrefix(pp, "google.golang.org/protobuf/") || pp == "sync" || pp == "sync/atomic" || pp == "reflect" {
+			sb.WriteString("<" + v.Type().String() + ">")
 			return
 		}
 		sb.WriteString(v.Type().Name() + "{")
@@ -276,6 +422,7 @@ func c45Dump(sb *strings.Builder, v reflect.Value, depth int) {
 
 func c45DumpOf(x any) string {
 	var sb strings.Builder
+	c45DumpBudget = 200000
 	c45Dump(&sb, reflect.ValueOf(x), 0)
 	return sb.String()
 }
@@ -326,6 +473,9 @@ func (env *c45Env) once(kind, typeURL string, val []byte) (res c45Result) {
 	case "lds":
 		name, u, err := unmarshalListenerResource(a, env.bc, nil)
 		res = c45Result{ok: err == nil, name: name}
+		if err == nil {
+			res.sum = c45SumLDS(u)
+		}
 		res.zero = err == nil || reflect.ValueOf(u).IsZero()
 		res.dump = c45DumpOf(u)
 	default:
@@ -574,14 +724,26 @@ func TestVerifC45(t *testing.T) {
 		}
 	}
 
-	// (1) the TLC-generated EDS resources
+	// (1) the TLC-generated EDS and LDS resources
 	var clas []*v3endpointpb.ClusterLoadAssignment
+	var lisBytes [][]byte
 	for n, ln := range lines {
 		var in struct {
 			X json.RawMessage `json:"x"`
+			Y json.RawMessage `json:"y"`
 		}
 		if err := json.Unmarshal(ln, &in); err != nil {
 			t.Fatalf("line %d: %v", n+1, err)
+		}
+		if in.Y != nil { // a TLC-generated abstract Listener
+			var y c45Lis
+			if err := json.Unmarshal(in.Y, &y); err != nil {
+				t.Fatalf("line %d: %v", n+1, err)
+			}
+			b := c45Marshal(c45BuildListener(y))
+			lisBytes = append(lisBytes, b)
+			note("lds", env.run(tr, "lds", version.V3ListenerURL, b, in.Y, "tlc"))
+			continue
 		}
 		var x c45Cla
 		if err := json.Unmarshal(in.X, &x); err != nil {
@@ -640,6 +802,9 @@ func TestVerifC45(t *testing.T) {
 	for i := 0; i < nMut/2; i++ {
 		note("cds-bytes", env.run(tr, "cds", version.V3ClusterURL, c45MutateBytes(r, cbytes[r.Intn(len(cbytes))]), nil, "bytes"))
 		note("lds-bytes", env.run(tr, "lds", version.V3ListenerURL, c45MutateBytes(r, lbytes[r.Intn(len(lbytes))]), nil, "bytes"))
+		if len(lisBytes) > 0 {
+			note("lds-bytes", env.run(tr, "lds", version.V3ListenerURL, c45MutateBytes(r, lisBytes[r.Intn(len(lisBytes))]), nil, "bytes"))
+		}
 	}
 	sj, _ := json.Marshal(map[string]any{"run": counts, "accepted": acc})
 	fmt.Printf("VERIF_SUMMARY %s\n", sj)
